@@ -340,6 +340,12 @@ func (fv *FuncVerifier) evalBuiltin(st *State, name string, e *ast.CallExpr) []V
 			}
 		}
 		return []Val{v}
+	case "close":
+		for _, a := range e.Args {
+			fv.eval(st, a)
+		}
+		fv.note("channel close dropped")
+		return nil
 	case "print", "println":
 		for _, a := range e.Args {
 			fv.eval(st, a)
